@@ -117,7 +117,7 @@ class ConverterFactory:
         if value is None:
             return None
 
-        if isinstance(value, list):
+        if collections.is_array(value):
             return " ".join(self.serialize(val, **kwargs) for val in value)
 
         instance = self.value_converter(value)
